@@ -6,20 +6,19 @@
 
       theorem accept_implies_entitled (f : Forest) (m : Method) (c : Ctx) :
           accepts f m c = true → Entitled f m c
-      theorem anonymous_only_certificate (f : Forest) (m : Method) (c : Ctx) :
-          c.endpoint = none → accepts f m c = true → m = .requestCertificate
 
-  Both are FALSE of the unchanged code, hence of the model; see the `…_counterexample` theorems:
+  It is FALSE of the unchanged code, hence of the model (`accept_implies_entitled_counterexample`):
     F-C13a  a sender in the receiver's own zone is never checked against the object's zone: `FromZone`
             is then taken from the message's own `originZone` field (absent ⇒ null ⇒ guard skipped;
-            present ⇒ any zone the sender cares to name);
-    F-C13b  `pki::UpdateCertificate` has no endpoint test, so an anonymous connection (no endpoint ⇒
-            `FromZone` null ⇒ guard skipped) gets past its only guard;
-    F-C13c  `event::SetRemovalInfo` tests "receiver below sender" instead of "sender may access the
-            comment/downtime".
-  What is proved instead is the full statement for every method class that has it, and for the three
-  classes above the statement under the exact hypothesis that excludes the counterexamples
-  (`accept_implies_entitled_partial`, `anonymous_only_certificate_partial`).
+            present ⇒ any zone the sender cares to name).  Known finding, not repaired.
+  What is proved instead is the full statement for every method class that has it, and for the update
+  classes the statement under the exact hypothesis that excludes the counterexample
+  (`accept_implies_entitled_partial`: sender not in the receiver's own zone).
+  `anonymous_only_certificate` holds in full.
+
+  History: F-C13b (`pki::UpdateCertificate` had no endpoint test; /repo ba4edd4) and F-C13c
+  (`event::SetRemovalInfo` did not look at the object's zone; /repo cc1e22f) were found by this check and
+  are repaired; their `…_partial`/`…_counterexample` pairs have been replaced by the full theorems.
 -/
 import IcingaProofs.C13.Lemmas
 import IcingaProofs.Gen.ApiFunctions
@@ -102,11 +101,9 @@ theorem accept_implies_entitled_session (f : Forest) (m : Method) (c : Ctx)
 
 /-- State and event updates, check results and execution results **from another zone** are applied only
     for objects in the sender's zone or below it (check results: or from the command endpoint;
-    execution results: for executions on endpoints of the sender's zone or below).
-    `event::SetRemovalInfo` is excluded (F-C13c, next theorem). -/
+    execution results: for executions on endpoints of the sender's zone or below). -/
 theorem accept_implies_entitled_update_from_other_zone (f : Forest) (m : Method) (c : Ctx)
     (hm : m.cls = .stateUpdate ∨ m.cls = .checkResult ∨ m.cls = .execResult)
-    (hr : m ≠ .setRemovalInfo)
     (hforeign : c.endpointZone ≠ some c.localZone)
     (h : accepts f m c = true) : Entitled f m c := by
   have hep : c.endpoint.isSome = true := by
@@ -118,11 +115,9 @@ theorem accept_implies_entitled_update_from_other_zone (f : Forest) (m : Method)
   have hfz := fromZone_foreign he hne
   refine Or.inr ⟨ha, ez, hz, ?_⟩
   rcases hm with hm | hm | hm
-  · -- the eight `CanAccessObject` rows (event::SetRemovalInfo is excluded by `hr`)
+  · -- the nine `CanAccessObject` rows
     have hg : guardAccess f c = true := by
-      cases m <;> simp [Method.cls] at hm <;> first
-        | exact absurd rfl hr
-        | (simp [accepts] at h; exact h.2)
+      cases m <;> simp [Method.cls] at hm <;> (simp [accepts] at h; exact h.2)
     rw [hm]
     exact guardAccess_foreign f he hne hg
   · -- event::CheckResult
@@ -145,55 +140,45 @@ theorem accept_implies_entitled_update_from_other_zone (f : Forest) (m : Method)
       simp only [hx, hfz] at hg
       exact ⟨xz, hx, isChildOf_sound f _ _ hg⟩
 
-/-- `event::SetRemovalInfo` is applied only from the receiver's own zone or a zone above it; the sender
-    is entitled to the comment/downtime **if that object lies in the receiver's zone or below it** (or in
-    a global zone) — the handler never looks at the object's zone (F-C13c). -/
-theorem accept_implies_entitled_removal_info_partial (f : Forest) (c : Ctx)
-    (hobj : ObjWithin f c.localZone c.localZone c.objZone)
-    (h : accepts f .setRemovalInfo c = true) : Entitled f .setRemovalInfo c := by
+/-- `event::SetRemovalInfo` additionally requires the sender's zone to be the receiver's own zone or a
+    zone above it (clusterevents.cpp:1597). -/
+theorem removal_info_only_from_own_zone_or_above (f : Forest) (c : Ctx)
+    (h : accepts f .setRemovalInfo c = true) :
+    c.authenticated = true ∧ ∃ s, c.endpointZone = some s ∧ Below f c.localZone s := by
   simp [accepts] at h
-  obtain ⟨ez, he⟩ := endpoint_isSome h.1.1
+  obtain ⟨ez, he⟩ := endpoint_isSome h.1.1.1
   obtain ⟨ha, hz⟩ := endpoint_some he
-  refine Or.inr ⟨ha, ez, hz, ?_⟩
-  exact hobj.mono (guardParent_sender f he h.1.2)
+  exact ⟨ha, ez, hz, guardParent_sender f he h.1.1.2⟩
 
-/-- `pki::UpdateCertificate` **from a connection that has an endpoint** is applied only from the
-    receiver's own zone or a zone above it (without endpoint: F-C13b). -/
-theorem accept_implies_entitled_cert_update_partial (f : Forest) (c : Ctx)
-    (hep : c.endpoint.isSome = true)
-    (h : accepts f .updateCertificate c = true) : Entitled f .updateCertificate c := by
+/-- **accept_implies_entitled_cert_update** (full).  `pki::UpdateCertificate` is applied only from an
+    authenticated, configured endpoint of the receiver's own zone or a zone above it. -/
+theorem accept_implies_entitled_cert_update (f : Forest) (m : Method) (c : Ctx)
+    (hm : m.cls = .certUpdate) (h : accepts f m c = true) : Entitled f m c := by
+  cases m <;> simp [Method.cls] at hm
   simp [accepts] at h
-  obtain ⟨ez, he⟩ := endpoint_isSome hep
+  obtain ⟨ez, he⟩ := endpoint_isSome h.1
   obtain ⟨ha, hz⟩ := endpoint_some he
-  exact Or.inr ⟨ha, ez, hz, guardParent_sender f he h⟩
+  exact Or.inr ⟨ha, ez, hz, guardParent_sender f he h.2⟩
 
 /-- **accept_implies_entitled_partial** — the whole table in one statement.  For every forest, method
-    and context: an accepted message comes from an entitled sender, *provided* the context is none of
-    (a) an update-class method from a sender in the receiver's own zone (F-C13a),
-    (b) `pki::UpdateCertificate` on a connection without endpoint (F-C13b),
-    (c) `event::SetRemovalInfo` for an object outside the receiver's zone subtree (F-C13c). -/
+    and context: an accepted message comes from an entitled sender, *provided* the context is not
+    an update-class method from a sender in the receiver's own zone (F-C13a). -/
 theorem accept_implies_entitled_partial (f : Forest) (m : Method) (c : Ctx)
-    (ha : (m.cls = .stateUpdate ∨ m.cls = .checkResult ∨ m.cls = .execResult) → m ≠ .setRemovalInfo →
+    (ha : (m.cls = .stateUpdate ∨ m.cls = .checkResult ∨ m.cls = .execResult) →
           c.endpointZone ≠ some c.localZone)
-    (hb : m = .updateCertificate → c.endpoint.isSome = true)
-    (hc : m = .setRemovalInfo → ObjWithin f c.localZone c.localZone c.objZone)
     (h : accepts f m c = true) : Entitled f m c := by
-  by_cases hrem : m = .setRemovalInfo
-  · subst hrem; exact accept_implies_entitled_removal_info_partial f c (hc rfl) h
-  by_cases hcert : m = .updateCertificate
-  · subst hcert; exact accept_implies_entitled_cert_update_partial f c (hb rfl) h
   cases hcls : m.cls with
-  | stateUpdate => exact accept_implies_entitled_update_from_other_zone f m c (Or.inl hcls) hrem (ha (Or.inl hcls) hrem) h
-  | checkResult => exact accept_implies_entitled_update_from_other_zone f m c (Or.inr (Or.inl hcls)) hrem (ha (Or.inr (Or.inl hcls)) hrem) h
-  | execResult => exact accept_implies_entitled_update_from_other_zone f m c (Or.inr (Or.inr hcls)) hrem (ha (Or.inr (Or.inr hcls)) hrem) h
+  | stateUpdate => exact accept_implies_entitled_update_from_other_zone f m c (Or.inl hcls) (ha (Or.inl hcls)) h
+  | checkResult => exact accept_implies_entitled_update_from_other_zone f m c (Or.inr (Or.inl hcls)) (ha (Or.inr (Or.inl hcls))) h
+  | execResult => exact accept_implies_entitled_update_from_other_zone f m c (Or.inr (Or.inr hcls)) (ha (Or.inr (Or.inr hcls))) h
   | zoneInternal => exact accept_implies_entitled_zone_internal f m c hcls h
   | config => exact accept_implies_entitled_config f m c hcls h
   | command => exact accept_implies_entitled_command f m c hcls h
   | session => exact accept_implies_entitled_session f m c hcls h
   | certRequest => exact Or.inl hcls
-  | certUpdate => cases m <;> simp [Method.cls] at hcls; exact absurd rfl hcert
+  | certUpdate => exact accept_implies_entitled_cert_update f m c hcls h
 
-/-! ## The counterexamples (kernel-checked; each is replayed on the real code by the harness) -/
+/-! ## The counterexample F-C13a (kernel-checked; replayed on the real code by the harness) -/
 
 /-- master (0) ← satellite (1) ← agent (2); zone 3 is unrelated, zone 4 is global. -/
 def exForest : Forest :=
@@ -242,17 +227,15 @@ theorem accept_implies_entitled_counterexample_claimed_origin :
     · simp [exForest] at he
     · exact not_below_master_satellite he
 
-/-- F-C13a in general: for the eight `CanAccessObject` rows a sender in the receiver's own zone that
+/-- F-C13a in general: for the nine `CanAccessObject` rows a sender in the receiver's own zone that
     sends no `originZone` is accepted for an object of ANY zone, in every forest. -/
 theorem own_zone_sender_is_not_checked (f : Forest) (m : Method) (c : Ctx)
-    (hm : m.cls = .stateUpdate) (hr : m ≠ .setRemovalInfo)
+    (hm : m.cls = .stateUpdate)
     (hauth : c.authenticated = true) (hown : c.endpointZone = some c.localZone)
     (hno : c.originZone = none) (hobj : c.objExists = true) : accepts f m c = true := by
   have he : c.endpoint = some c.localZone := by simp [Ctx.endpoint, hauth, hown]
   have hfz : c.fromZone = none := by rw [fromZone_own he, hno]
-  cases m <;> simp [Method.cls] at hm <;> first
-    | exact absurd rfl hr
-    | simp [accepts, he, hobj, guardAccess, hfz]
+  cases m <;> simp [Method.cls] at hm <;> simp [accepts, he, hobj, guardAccess, guardParent, hfz]
 
 /-- An anonymous connection (certificate not verified) sends `pki::UpdateCertificate`. -/
 def exAnonymous : Ctx :=
@@ -260,44 +243,20 @@ def exAnonymous : Ctx :=
     objZone := none, senderIsCommandEndpoint := false, execEndpointZone := none,
     acceptConfig := false, acceptCommands := false }
 
-/-- **F-C13b.**  "Anonymous connections can do nothing but request a certificate" fails for
-    `pki::UpdateCertificate`. -/
-theorem anonymous_only_certificate_counterexample :
-    ¬ (∀ (f : Forest) (m : Method) (c : Ctx), c.endpoint = none → accepts f m c = true → m = .requestCertificate) := by
-  intro hall
-  have := hall exForest .updateCertificate exAnonymous (by decide) (by decide)
-  exact absurd this (by decide)
-
-/-- **anonymous_only_certificate_partial.**  Apart from `pki::UpdateCertificate`, a connection without
-    authenticated, configured endpoint gets nothing but the certificate request past the guards — in
-    every forest and context. -/
-theorem anonymous_only_certificate_partial (f : Forest) (m : Method) (c : Ctx)
-    (hx : m ≠ .updateCertificate) (hanon : c.endpoint = none) (h : accepts f m c = true) :
-    m = .requestCertificate := by
+/-- **anonymous_only_certificate** (full).  A connection without authenticated, configured endpoint gets
+    nothing but the certificate request past the guards — in every forest and context. -/
+theorem anonymous_only_certificate (f : Forest) (m : Method) (c : Ctx)
+    (hanon : c.endpoint = none) (h : accepts f m c = true) : m = .requestCertificate := by
   cases m <;> first
     | rfl
-    | exact absurd rfl hx
     | (simp [accepts, hanon, guardCommandSender, guardConfigSender] at h)
 
 /-- master (0) ← satellite (1) ← agent (2): the agent (local zone 2) receives `event::SetRemovalInfo`
-    from the satellite zone for a comment that belongs to the master zone. -/
+    from the satellite zone for a comment that belongs to the master zone (refused since cc1e22f). -/
 def exRemoval : Ctx :=
   { authenticated := true, endpointZone := some 1, originZone := none, localZone := 2, objExists := true,
     objZone := some 0, senderIsCommandEndpoint := false, execEndpointZone := none,
     acceptConfig := false, acceptCommands := false }
-
-/-- **F-C13c.**  Accepted although the comment's zone is above the sender's. -/
-theorem removal_info_counterexample :
-    accepts exForest .setRemovalInfo exRemoval = true ∧ ¬ Entitled exForest .setRemovalInfo exRemoval := by
-  refine ⟨by decide, ?_⟩
-  rintro (h | ⟨_, s, hs, he⟩)
-  · simp [Method.cls] at h
-  · simp [exRemoval] at hs
-    subst hs
-    simp only [Method.cls, EntitledZone, ObjWithin, exRemoval] at he
-    rcases he with he | he
-    · simp [exForest] at he
-    · exact not_below_master_satellite he
 
 /-! ## Refusal -/
 
@@ -358,6 +317,12 @@ example : accepts exForest .setSuppressedNotifications exFromMaster = false := b
 example : accepts exForest .setSuppressedNotifications { exFromMaster with endpointZone := some 1 } = true := by decide
 example : accepts exForest .configUpdateObject { exFromMaster with acceptConfig := false } = false := by decide
 example : accepts exForest .executeCommand { exFromMaster with endpointZone := some 2 } = false := by decide
+/-- the two repaired guards refuse their former witnesses; the legitimate senders are still accepted -/
+example : accepts exForest .updateCertificate exAnonymous = false := by decide
+example : accepts exForest .updateCertificate exFromMaster = true := by decide
+example : accepts exForest .setRemovalInfo exRemoval = false := by decide
+example : accepts exForest .setRemovalInfo { exRemoval with objZone := some 2 } = true := by decide
+example : exAnonymous.endpoint = none := by decide
 /-- objects of a global zone are everybody's -/
 example : accepts exForest .setNextCheck { exFromMaster with endpointZone := some 2, objZone := some 4 } = true := by decide
 
